@@ -116,7 +116,7 @@ def _port(draw):
     tname = draw(st.sampled_from([None, None, 'int', 'str', 'num']))
     validator = draw(st.sampled_from([None, None, 'nonneg', 'short', 'never', 'always']))
     default = None
-    mode = draw(st.sampled_from([None, None, 'plain', 'callable']))
+    mode = draw(st.sampled_from([None, None, 'plain', 'callable', 'factory', 'partial']))
     if mode is not None and validator != 'never':
         default = [mode, _valid_value(draw, tname, validator)]
     return pm.port(required=draw(st.booleans()), valid_type=tname, validator=validator, default=default)
@@ -308,6 +308,16 @@ def execute(case):
                         v('reloaded-inputs-mutable', f'unexpected {type(exc).__name__} at level {".".join(path)}')
                         break
         # the caller's dictionary stays exactly as given
+        if proc is not None and accepted and not viol and caller is not None:
+            # ... and the process keeps what it was given when the caller goes on using its dictionary
+            # (top level only: nested mappings of raw_inputs are the caller's own objects on purpose, raw means raw)
+            caller['__later__'] = 1
+            raw = plain(proc.raw_inputs) if proc.raw_inputs is not None else None
+            if raw != given:
+                v('raw-inputs-alias-caller', f'after the caller added a key to its dictionary raw_inputs = {raw!r}, given was {given!r}')
+            if plain(proc.inputs) != parsed:
+                v('inputs-alias-caller', f'after the caller added a key to its dictionary inputs = {plain(proc.inputs)!r} expected {parsed!r}')
+            caller.pop('__later__', None)
         if caller != snapshot:
             v('caller-dict-changed', f'{caller!r} was {snapshot!r}')
         elif caller is not None:
